@@ -27,9 +27,9 @@ write/delete/rename the touched files *and their directories* are stamped with `
 virtual clock (`advance` = +1 s per event, the default; deviations: `~s` same tick, `~o` the
 file carries an old mtime while the directory advances).  Pickles written by a step are stamped
 with the step's virtual time.  Every history lives in its own directory (project and cache directory nothing has seen before).
-Histories without `restart` run inside a long-lived worker with the worker's long-lived helper
-subprocess (cheap; what an editor session analysing many projects does); histories with
-`restart` run each process segment in a child forked from the worker with a helper of its own.
+Histories run inside a long-lived worker with the worker's long-lived helper subprocess (cheap;
+what an editor session analysing many projects does); the process after a `restart` is a child
+forked from the worker *before* the history began, with a helper subprocess of its own.
 A difference without a clock explanation is judged again from the pristine parent process
 (forked segments, new helpers - exactly what replay() does) before it is reported, so that a
 reported history is replayable alone; one that needs the worker's earlier histories is reported
@@ -162,7 +162,7 @@ FULL = ['wA', 'wB', 'wC', 'del', 'm2p', 'p2m', '+init', '-init', '+pyi', '-pyi',
         'touch', 'restart', 'sB', 'sA', 'shadow+', 'shadow-', 'm2p_keep', 'p2m_keep']
 NO_ANSWER = ('restart', 'shadow+', 'shadow-', 'm2p_keep', 'p2m_keep')    # advance only
 CORE = ['wB', 'wC', 'del', 'm2p', 'p2m', '+pyi', 'ren', 'restart']
-CORE6 = ['wB', 'del', 'm2p', '+pyi', 'restart', 'm2p_keep']      # quick tier's depth-3 level
+CORE6 = ['wB', 'wC', 'del', 'm2p', '+pyi', 'm2p_keep']     # quick tier's depth-3 level (no restart)
 ANSWERS = ('', '~s', '~o')        # advance (default) | same tick | older file mtime
 
 
@@ -696,6 +696,93 @@ def run_history(events, tag):
     return obs
 
 
+def run_history_mixed(events, tag):
+    """A history with `restart` events in a long-lived worker: the children that will play the
+    processes after each restart are forked *first* (from a worker that has never seen the
+    history's directories; they wait on a pipe), then the first segment runs in the worker
+    itself with its long-lived helper, then the children run one after the other, each with
+    a helper subprocess of its own."""
+    _init()
+    jedi = boot.boot()
+    from jedi import settings
+    hdir = os.path.join(boot.scratch_root(), 'c09-m-%d-%s' % (os.getpid(), tag))
+    shutil.rmtree(hdir, ignore_errors=True)
+    os.makedirs(hdir)
+    bounds = [0] + [i + 1 for i, e in enumerate(events) if split_event(e)[0] == 'restart']
+    segs = [(b, (bounds[j + 1] - 1) if j + 1 < len(bounds) else len(events))
+            for j, b in enumerate(bounds)]
+    if _SHARED['env'] is None:
+        _SHARED['env'] = _new_env()
+        _SHARED['env'].get_sys_path()        # the helper exists before anything is forked
+    kids = []
+    sys.stdout.flush()
+    sys.stderr.flush()
+    for j, (a, b) in enumerate(segs[1:], 1):
+        r, w = os.pipe()
+        out_path = os.path.join(hdir, 'out-%d.json' % j)
+        pid = os.fork()
+        if pid == 0:
+            rc = 0
+            try:
+                os.close(w)
+                for _r, w2, _p, _o in kids:
+                    os.close(w2)
+                go = os.read(r, 1)
+                if go == b'g':
+                    _segment_child(hdir, events, a, b, out_path)
+            except BaseException:
+                rc = 7
+                try:
+                    with open(out_path + '.err', 'w') as f:
+                        f.write(traceback.format_exc())
+                except Exception:
+                    pass
+            os._exit(rc)
+        os.close(r)
+        kids.append((None, w, pid, out_path))
+    saved = settings.cache_directory
+    obs = []
+    try:
+        try:
+            obs.extend(_run_steps(jedi, _SHARED['env'], hdir, events, 0, segs[0][1]))
+        finally:
+            settings.cache_directory = saved
+            _SHARED['ran'].append(list(events))
+            boot.prune_parser_cache()
+        for j, (_r, w, pid, out_path) in enumerate(kids, 1):
+            os.write(w, b'g')
+            os.close(w)
+            kids[j - 1] = (None, None, pid, out_path)
+            _pid, status = os.waitpid(pid, 0)
+            kids[j - 1] = (None, None, None, out_path)
+            if status != 0:
+                err = ''
+                if os.path.exists(out_path + '.err'):
+                    with open(out_path + '.err') as f:
+                        err = f.read()
+                raise RuntimeError('segment %d of %s died (status %s): %s'
+                                   % (j, hid(events), status, err))
+            with open(out_path) as f:
+                obs.extend(json.load(f))
+    finally:
+        for _r, w, pid, _o in kids:          # anything still waiting is released and reaped
+            if w is not None:
+                try:
+                    os.write(w, b'x')
+                    os.close(w)
+                except OSError:
+                    pass
+            if pid is not None:
+                try:
+                    os.waitpid(pid, 0)
+                except OSError:
+                    pass
+        if not os.environ.get('JV_KEEP_SCRATCH'):
+            shutil.rmtree(hdir, ignore_errors=True)
+    assert len(obs) == len(events) + 1
+    return obs
+
+
 # ------------------------------------------------------------------------------------------
 # oracle: a fresh interpreter, empty cache directory, a copy of the same files
 # ------------------------------------------------------------------------------------------
@@ -803,7 +890,7 @@ def _work(task):
         if shared:
             obs = run_history_shared(events, str(task['n']))
         else:
-            obs = run_history(events, str(task['n']))
+            obs = run_history_mixed(events, str(task['n']))
     except RuntimeError as e:
         return {'died': str(e)[-1500:]}
     steps = walk(events)
